@@ -15,6 +15,11 @@ fn items(thorough: bool) -> Vec<String> {
         v.push(format!("thread{{ {a} }}"));
     }
     v.push("other{ L:z0 }".into());
+    // the same load through the typed cache (a global `&AssetCache`) on the loading thread; no_record
+    // called through the AnyCache view of a cache that has no reloader
+    v.push("G:l0".into());
+    v.push("xnorec{ L:l1 }".into());
+    v.push("xnorec{ F:r0 }".into());
     // raw directory listings: directly, unrecorded, and through the other cache (same id `d`)
     v.push("Q:d".into());
     v.push("norec{ Q:d }".into());
@@ -68,6 +73,7 @@ fn edits() -> Vec<Move> {
     vec![
         e("l0", &["put l0.l 11", "ev F:l0.l", "hr"]),
         e("l1", &["put l1.l 12", "ev F:l1.l", "hr"]),
+        e("l0 again", &["put l0.l 21", "ev F:l0.l", "hr"]),
         e("s0", &["put s0.l 13", "ev F:s0.l", "hr"]),
         e("d+", &["put d.c.l 14", "ev D:d", "hr"]),
         e("d.a", &["put d.a.l 15", "ev F:d.a.l", "hr"]),
@@ -88,7 +94,7 @@ pub fn run(args: &Args) -> SubResult {
     let mut res = SubResult::new("C14", "c14_attrib");
     let thorough = args.thorough();
     let sc = scripts(thorough);
-    res.bound = format!("{} scripts (sequences of <= {} items; items = 9 atoms, each also inside no_record / helper-thread blocks, other-cache blocks, depth-2 nestings) x 12 moves (11 single-entry edits + creation and top-level load of the leaf whose nested load failed), each followed by a second edit round (depth 2); two caches; hash seeds 0/5 alternating", sc.len(), if thorough { 3 } else { 2 });
+    res.bound = format!("{} scripts (sequences of <= {} items; items = 9 atoms, each also inside no_record / helper-thread blocks, other-cache blocks, depth-2 nestings) x 13 moves (12 single-entry edits + creation and top-level load of the leaf whose nested load failed), each followed by a second edit round (depth 2); two caches; hash seeds 0/5 alternating", sc.len(), if thorough { 3 } else { 2 });
     res.rule = "per script: history = load; edit one entry; notify exactly it; quiesce; hot_reload (x every entry, then x every second entry with deduplication); oracle = reference evaluator's attribution rules closed under dependents vs. the set of handles whose reload id grew (and their values); distinct = distinct (canonical state, observations)".into();
     let total = sc.len();
     vcommon::run_cases(args, res, total, std::time::Duration::from_secs(if thorough { 3000 } else { 300 }), |idx, res| {
@@ -107,7 +113,7 @@ pub fn run(args: &Args) -> SubResult {
             check_ledger: true,
             check_presence: false,
         };
-        let deep = thorough || (idx + args.seed as usize) % 7 == 0 || (script.contains("l:x") && script.split_whitespace().count() <= 3);
+        let deep = thorough || (idx + args.seed as usize) % 7 == 0 || (script.contains("l:x") && script.split_whitespace().count() <= 3) || script == "G:l0";
         let s = Search { harness: "c14_attrib", cfg, init: vec!["load L z0".into(), "load N t".into()], moves: vec![edits()], depth: if deep { 2 } else { 1 }, dedup: true, max_hist: 0 };
         run_search(res, &s);
     })
